@@ -235,6 +235,18 @@ func c19Programs(thorough bool) []c19Prog {
 			out = append(out, c19Prog{Name: fmt.Sprintf("native/%d-%d", i, j), Src: s, Funcs: nf})
 		}
 	}
+	// native function names that only an exact, total order keeps apart (case-only differences, prefixes, '_' vs digits)
+	for i, e := range []struct {
+		names []string
+		src   string
+	}{
+		{[]string{"max", "Max", "MAX"}, "BEGIN { print max(1), Max(2), MAX(3) }"},
+		{[]string{"a", "aa", "a_", "A"}, "function w(x) { return a(x) + aa(x) } BEGIN { print w(1), a_(2), A(3) }"},
+		{[]string{"f1", "f_1", "F1", "f10"}, "BEGIN { print f1(1) f_1(2) F1(3) f10(4) }"},
+		{[]string{"Len", "len", "lEn"}, "function len2(x) { return len(x) + Len(x) } BEGIN { print len2(1), lEn(2) }"},
+	} {
+		out = append(out, c19Prog{Name: fmt.Sprintf("native-names/%d", i), Src: e.src, Funcs: e.names})
+	}
 	// the repository's own sources (error cases and valid ones) that define or call functions, or use several globals
 	srcs := corpus.AllSources("/repo")
 	limit := 150
@@ -788,7 +800,7 @@ func init() {
 	core.Register(&core.Check{
 		ID:    "C19",
 		Level: "model_checking",
-		Rule: "(1) map orders: for programs with 2-3 independent type errors (all such subsets of 9 error items), call-graph shapes, native+AWK function mixes and the repository's own sources, every map-range site executed by the resolver/compiler during ParseProgram is a choice point over a permutation menu (all n! for n<=3, else identity/reverse/rotations/adjacent swaps); all parses with <=1 (thorough <=2) non-sorted site executions; verdict, message+position, compiled code, constants, function table, printed source and disassembly must equal the sorted-order parse; " +
+		Rule: "(1) map orders: for programs with 2-3 independent type errors (all such subsets of 9 error items), call-graph shapes, native+AWK function mixes, native name sets that differ only in case / by prefix / by _ vs digit, and the repository's own sources, every map-range site executed by the resolver/compiler during ParseProgram is a choice point over a permutation menu (all n! for n<=3, else identity/reverse/rotations/adjacent swaps); all parses with <=1 (thorough <=2) non-sorted site executions; verdict, message+position, compiled code, constants, function table, printed source and disassembly must equal the sorted-order parse; " +
 			"(2) immutability: reflective deep dump of everything reachable from the *parser.Program (exported and unexported fields, spare slice capacity, compiled regexes) before = after two rounds of executions (including failing ones; second round with the inputs in the other order), and the deep dump of every package-level variable of the goawk packages after round 1 = after round 2, for the sharing programs, 3 programs that start child processes through the default shell, and the C01 misc/builtins/calls/control space; the second round's results equal the first; (2b) 10 configuration-sensitive programs (@-name field access, FIELDS, modes set in BEGIN, $0 rebuild, character functions, regex FS) and the sharing programs each executed as ONE Program under 7 configurations in turn and back (CSV header with a column at different positions, CSV without header, TSV header with CSV output, character mode, default, Vars): every result equals a single execution of a freshly parsed Program under that configuration, deep dump unchanged; " +
 			"(3) sharing: 2 and 3 interpreters over one Program as cooperative threads yielding at every VM instruction, all interleavings with <=2 preemptions (3 interpreters: 1 in quick), each interpreter's result must equal its single run; state = one program, transition = one parse order / execution / schedule",
 		Assumptions: []string{
